@@ -16,7 +16,9 @@ CONSTANTS Kinds,     \* object kinds enabled in this configuration
           Bufs2,     \* buffer sizes of the second drain ({} = no second drain)
           Modes,     \* 0 = any buffer size per read; n > 0 = every read uses n
           Long,      \* TRUE: add the objects with 252..255-byte names (script generation)
-          Track      \* TRUE: keep the history of reads (script generation)
+          Track,     \* TRUE: keep the history of reads (script generation)
+          BSizes     \* {} = the ordinary object domains; otherwise ONLY the scanner-boundary objects below, for these
+                     \* buffer sizes (Gen_Wire_boundary.cfg)
 
 VARIABLES off2, eof2, emitted2,    \* the second drain of the same object
           mode, hist
@@ -46,10 +48,37 @@ Art2 == [id |-> <<0, 0, 1, 0>>, date |-> <<7, 234, 0, 0, 0, 1, 0, 0>>, parent |-
 
 PathS == {<<65>>, <<0, 255>>}
 
-Objects(k) ==
+(* Scanner-boundary objects.  The library's decoders split field lists and paths with a bufio.Scanner whose buffer
+   starts at 4096 bytes and doubles; a token (field / path item) whose header ends exactly at, or straddles, the end of
+   the buffer is the input class on which an off-by-one in a split function shows.  The buffer end is at
+   (start of the first token that did not fit) + buffer size, hence: a field area of B - 3 .. B + 3 bytes made of one large
+   field and a trailing empty (or one-byte) field; the same behind a prefix field (the buffer is shifted); a path
+   whose 17th item header starts 5 .. -1 bytes before byte 4096 of the item list. *)
+Boundary == BSizes # {}
+H1 == [flags |-> 0, isReply |-> 1, type |-> 354, id |-> <<0, 0, 1, 2>>, err |-> Zeros(4)]
+BoundaryTxns ==
+  {H1 @@ [fields |-> <<[id |-> 101, data |-> Rep(7, B - 11 + d)], [id |-> 102, data |-> tail]>>]
+     : B \in BSizes, d \in 0..6, tail \in {<<>>, <<1>>}}
+  \cup {H1 @@ [fields |-> <<[id |-> 103, data |-> Rep(5, a)], [id |-> 101, data |-> Rep(7, 4085 + d)],
+                            [id |-> 102, data |-> <<>>], [id |-> 104, data |-> <<2, 3>>]>>]
+          : a \in {0, 37, 1000}, d \in 0..6}
+BoundaryAccounts == {[login |-> <<>>, name |-> Rep(65, 4085 + d), access |-> Zeros(8), haspw |-> FALSE] : d \in 0..6}
+BoundarySegs == {[i \in 1..15 |-> Rep(66, 255)] \o <<Rep(67, 218 + d)>> \o <<<<65>>>> : d \in 0..6}
+
+BObjects(k) ==
+  CASE k = "txn" -> BoundaryTxns
+    [] k = "account" -> BoundaryAccounts
+    [] k \in {"filepath", "newspath"} -> {[segs |-> s] : s \in BoundarySegs}
+    [] k = "fileheader" -> {[isdir |-> FALSE, segs |-> s] : s \in BoundarySegs}
+    [] OTHER -> {}
+
+Widths == {2, 4}    \* User.Icon / User.Flags are accepted as 2 bytes or as a 4-byte integer whose low half counts (de-facto)
+
+NObjects(k) ==
   CASE k = "field" -> {[id |-> i, data |-> d] : i \in {0, 101, 65535}, d \in DataS}
     [] k = "txn" -> {h @@ [fields |-> fs] : h \in Headers, fs \in SeqsUpTo(FldS, 0, 3)}
-    [] k = "user" -> {[id |-> i, icon |-> c, flags |-> f, name |-> n] : i \in {0, 1, 65535}, c \in {0, 414}, f \in {0, 3}, n \in NameS}
+    [] k = "user" -> {[id |-> i, icon |-> c, flags |-> f, name |-> n, iconw |-> cw, flagsw |-> fw]
+                        : i \in {0, 1, 65535}, c \in {0, 414}, f \in {0, 3}, n \in NameS, cw \in Widths, fw \in Widths}
     [] k = "account" -> {[login |-> l, name |-> n, access |-> a, haspw |-> p]
                            : l \in NameS, n \in NameS, a \in {Zeros(8), Rep(255, 8)}, p \in BOOLEAN}
     [] k = "fnwi" -> {[type |-> t, creator |-> <<5, 6, 7, 8>>, size |-> s, rsvd |-> Z4, script |-> sc, name |-> n]
@@ -76,6 +105,8 @@ Objects(k) ==
     [] k = "newspath" -> {[segs |-> s] : s \in SeqsUpTo(NameS, 0, 2) \cup {<<n>> : n \in LongNames}}
     [] k = "serverrecord" -> {[ip |-> <<10, 0, 0, 1>>, port |-> p, users |-> u, name |-> n, desc |-> d]
                                 : p \in {5500, 65535}, u \in {0, 300}, n \in NameS, d \in {<<>>, <<68>>}}
+
+Objects(k) == IF Boundary THEN BObjects(k) ELSE NObjects(k)
 
 Pair == Bufs2 # {}
 
